@@ -33,6 +33,9 @@ CLAIMED = {
     "C20": ("exploration", "contracts and harnesses on the real classes decided by bounded symbolic execution (pyvc) and z3, ghost checkpoint state in the interface contracts",
             "Bounded stand-in: the generic TrialBackend deletes a checkpoint only in stop_trial (after the trial was stopped) and stop_all, and only with delete_checkpoints; pausing and resuming never delete; a warm start copies before it schedules; the tuner reaches deletion only via STOP decisions and every resume / clone call site requires an existing checkpoint (ghost G.ckpt); PBT marks every trial it stops and only clones from live trials (population <= 3). F8 is recorded as a known finding.",
             "Interface contracts assumed; synchronous Hyperband's removable list relies on C05's get_top_list partition clause; LocalBackend file operations and the speculative Hyperband callback are out of scope.", "5/C20"),
+    "C17": ("proof", "contract-based deductive verification (pyvc VCs from the real AST, z3) of the results callback for logs of any length; bounded symbolic execution for the running statistics and the best-trial report (NaN and missing values included)",
+            "Unbounded: StoreResultsCallback.on_trial_result appends exactly one row with the result's values, decision, status, trial id, full configuration and a tuner time stamp, leaves earlier rows and its argument untouched. Bounded: a trial whose configuration changed between two results is logged with the configuration at delivery; MetricsStatistics.add keeps count / min / max / sum (a NaN never replaces an extremum); print_best_metric_found returns a trial attaining the per-mode optimum and never a trial without values when another has one. One callback call per delivered result is C01's contract.",
+            "A-REAL with NaN flag; numpy.inf as a large constant; the CSV round trip (pandas) and ExperimentResult.best_config are NOT covered by any check (outside the verified subset); metric/config names are fixed literals.", "5/C17"),
     "C04": ("proof", "contract-based deductive verification: VCs generated from the real AST (pyvc) with loop invariants and modular callee contracts, discharged by z3/cvc5; bounded-shape stand-in for the cost-aware variant and for witnesses",
             "Unbounded verification conditions (rung contents of any length, 0..3 rungs) for PromotionRungSystem (find/mark/schedule/add/report/remove) and PASHA's resource cap in on_task_schedule, from /repo's source on every run; cost-aware eligibility bounded (<=4 entries).",
             "A-REAL; SortedList contract trusted; number of rungs concrete in proof units; cost values non-negative; PASHA ranking/epsilon logic and DyHPO not covered; pyvc encoding and SMT solvers trusted.", "5/C04"),
